@@ -184,6 +184,21 @@ pub fn judge_binary<V: Variant>(bytes: &[u8]) -> Result<(), String> {
     if stored != bytes {
         return Err(format!("{} store(try_from({})) = {}", V::NAME, hex(bytes), hex(&stored)));
     }
+    // the same through a buffer that is larger than needed (the API allows it)
+    for extra in [1usize, 7, 64] {
+        let mut big = vec![0xc7u8; V::SIZE + extra];
+        match h.store_into_bytes(&mut big) {
+            Ok(n) if n == V::SIZE => {
+                if big[..n] != *bytes {
+                    return Err(format!("{} store_into_bytes into a {}-byte buffer wrote {} in its first {n} bytes, expected {}", V::NAME, big.len(), hex(&big[..n]), hex(bytes)));
+                }
+                if V::from_slice(&big[..n]).ok() != Some(h) {
+                    return Err(format!("{} try_from(&buf[..n]) after storing into a larger buffer differs from h", V::NAME));
+                }
+            }
+            other => return Err(format!("{} store_into_bytes into a {}-byte buffer returned {other:?}", V::NAME, big.len())),
+        }
+    }
     let again = V::from_slice(&stored).map_err(|e| format!("try_from(store(h)) failed: {e:?}"))?;
     if again != h {
         return Err(format!("{} try_from(store(h)) != h", V::NAME));
